@@ -19,6 +19,7 @@
 * `Prev`, `portLoop`, `updateTree`       — `_prev` (:124) and `_update_tree` (:169-229) with `_hold_down = False`
     (`_noflood_by_default = False`): for every switch in the tree that has a connection, every port below `OFPP_MAX`
     gets `flood = port in tree_ports or is_edge_port`; a `port_mod` is sent only when `_prev` differs.
+* `updateTreeF`                          — the same when a `con.send` raises (`except: _prev.clear()`, :225-227)
 Core only; structural recursion only. -/
 namespace Pox.STree
 
@@ -289,5 +290,17 @@ def updateTree (adj : List Link) (order : List Nat) (conns : Conns) (pv : Prev) 
   match calcTreeL adj order with
   | .error e => .error e
   | .ok t => .ok (swLoop adj t conns (treeKeys t) (pv, []))
+
+/-- `_update_tree()` when `con.send` raises: `failAt = some k` makes the (k+1)-th port_mod of this call raise.  The loops are
+    sequential and do not look at the outcome of a send, so the k port_mods before it are exactly the first k of the undisturbed
+    run; the `except:` clause (:225-227) then clears ALL of `_prev` and the function returns normally. -/
+def updateTreeF (adj : List Link) (order : List Nat) (conns : Conns) (pv : Prev) (failAt : Option Nat) :
+    Except String (Prev × List PortMod) :=
+  match updateTree adj order conns pv with
+  | .error e => .error e
+  | .ok r =>
+    match failAt with
+    | some k => if k < r.2.length then .ok ([], r.2.take k) else .ok r
+    | none => .ok r
 
 end Pox.STree
